@@ -360,12 +360,21 @@ fn anchors_line(m: &CMap2<f64>) -> String {
 
 pub fn step(sess: &mut Sess, toks: &[&str]) -> Option<String> {
     match toks[0] {
-        "grisubal" | "capture" => {
+        "grisubal" | "capture" | "grisubalv" => {
             let Some(g) = parse_geo(&toks[1..]) else { return Some("bad-op".into()) };
             let path = TmpFile(write_vtk(&g));
             let clip = clip_of(&g.clip).unwrap();
             let r = if toks[0] == "grisubal" {
                 grisubal::<f64>(&path.0, g.cell, clip)
+            } else if toks[0] == "grisubalv" {
+                // diagnosis only: `grisubal` with the panic message in the reply
+                match std::panic::catch_unwind(std::panic::AssertUnwindSafe(|| grisubal::<f64>(&path.0, g.cell, clip_of(&g.clip).unwrap()))) {
+                    Ok(r) => r,
+                    Err(e) => {
+                        let msg = e.downcast_ref::<String>().cloned().or_else(|| e.downcast_ref::<&str>().map(|s| s.to_string())).unwrap_or_default();
+                        return Some(format!("panic {}", msg.replace('\n', " ")));
+                    }
+                }
             } else {
                 capture_geometry::<f64>(&path.0, g.cell, clip)
             };
